@@ -49,6 +49,11 @@ import (
 var numCornersQuick = []shape{
 	{"absent", ""}, {"0", "0"}, {"-1", "-1"}, {"-5", "-5"}, {"1e18", "1e18"}, {"10^18", "1000000000000000000"},
 	{"1.5", "1.5"}, {"str-5", `"5"`}, {"null", "null"}, {"2^63", "9223372036854775808"},
+	// the largest round number of seconds that is still a positive time.Duration and, added to the
+	// fake clock, a valid time (253 years): larger positive values overflow inside the Go runtime's
+	// timers (time.Sleep in a synctest bubble then dies with "bad g->status"), which would turn a
+	// detection into an internal error
+	{"8e9", "8000000000"},
 }
 
 var numCornersThorough = append(append([]shape{}, numCornersQuick...),
@@ -244,7 +249,7 @@ type chainT struct {
 // time.Duration(resp.Interval)*time.Second like example/client/device does
 // (whole seconds, and what the multiplication wraps to): the statement is
 // about provider answers, not about arbitrary arguments of the caller.
-var ivalAlts = []string{"1s", "0", "-1s", "-5s", "1h", "9223372036s", "min"}
+var ivalAlts = []string{"1s", "0", "-1s", "-5s", "1h", "8000000000s", "min"}
 
 func ivalOf(s string) time.Duration {
 	switch s {
